@@ -66,6 +66,8 @@ def parse_type(s: str) -> TypeSpec:
             kinds = [k.strip() for k in _split_top(inner[1:-1])]
             return TypeSpec("list", elem=("tuple", kinds))
         return TypeSpec("list", elem=inner)
+    if s.startswith("opt:"):
+        return TypeSpec("opt", elem=parse_type(s[4:]))
     if s.startswith("obj:"):
         return TypeSpec("obj", cls=s[4:])
     if s.startswith("(") and s.endswith(")"):
@@ -78,6 +80,9 @@ def static_matches(ts: TypeSpec, v, repo=None, exact=False) -> bool:
     from .values import is_boolv, is_intv, is_numv
     if ts.base == "any":
         return True
+    if ts.base == "opt":
+        from .values import OptV
+        return v is NONE or isinstance(v, OptV) or static_matches(ts.elem, v, repo, exact)
     if ts.base == "none":
         return v is NONE
     if v is NONE:
